@@ -331,6 +331,7 @@ func (s *indexKVStore) getOrCreateValue(bucketID uint32, key []byte,
 			return 0, false, false, err
 		}
 		if bucket != nil {
+			verifhook.Yield("index.kvstore.beforeCacheBucket")
 			s.bucketCache.Add(bucketID, bucket)
 		}
 	}
